@@ -15,6 +15,7 @@ def run(tier, seed):
         models=[('MC_DiffLogicImpl', 'MC_DiffLogicImpl_quick.cfg', 'MC_DiffLogicImpl.cfg',
                  'implementation-shaped model of idl_theory (incremental update, predecessors, enforcing constraints, first-write-wins undo layers): DistExact, ConflictIffNegCycle, ExplanationsValid, PopRestores* over all assert / negate / push / pop histories', None),
                 ('MC_SatCoreImpl', 'MC_SatCoreImpl_C.cfg', 'MC_SatCoreImpl_A1.cfg', 'implementation-shaped model of sat_core / clause: trail, levels and watch lists after pop / backjump (TrailInv, WatchInv, PropagationComplete, AssignedEntailed)', None)],
+        lraimpl=(['LraGen_A.cfg'], ['LraGen_A.cfg', 'LraGen_B.cfg']),
         satimpl=(['SatCoreGen_C.cfg', 'SatCoreGen_B.cfg'], ['SatCoreGen_A1.cfg', 'SatCoreGen_C.cfg']),
         dlimpl=(False, True),
         assumptions=['at most 11 propositional variables and 6 theory atoms per execution',
